@@ -318,9 +318,19 @@ def _compare_rules(ck: Checker) -> None:
     sinks = [(n, c) for n, c, q in apps if q.endswith("_delete")]
     ck.floor("C09.delete", len(sinks), 2, "queue-for-deletion sites in _compare (closures inlined)")
 
+    from ..prov import scope_of as _sc
+
+    def typ_text(x) -> str:
+        """`change.typ`, also when it was first copied into a local (`typ = change.typ`)"""
+        if isinstance(x, ast.Name):
+            ds_ = [d for d in _sc(cmp_).get(x.id) if d.kind in ("assign", "annassign")]
+            if len(ds_) == 1 and ds_[0].value is not None and norm(ds_[0].value).endswith(".typ"):
+                return norm(ds_[0].value)
+        return norm(x)
+
     def typ_is(t, lab, names) -> bool:
         e = t.ast
-        if not (t.kind == "test" and isinstance(e, ast.Compare) and len(e.ops) == 1 and norm(e.left).endswith(".typ")):
+        if not (t.kind == "test" and isinstance(e, ast.Compare) and len(e.ops) == 1 and typ_text(e.left).endswith(".typ")):
             return False
         r = norm(e.comparators[0])
         if isinstance(e.ops[0], ast.Eq):
@@ -348,9 +358,9 @@ def _compare_rules(ck: Checker) -> None:
     sink_ids = {n.id for n, _ in sinks}
     n_add = 0
     for t in g.nodes.values():
-        if t.kind == "test" and isinstance(t.ast, ast.Compare) and norm(t.ast.left).endswith(".typ") and len(t.ast.ops) == 1 and isinstance(t.ast.ops[0], ast.Eq) and norm(t.ast.comparators[0]) == "ADD" and t.loops:
+        if t.kind == "test" and isinstance(t.ast, ast.Compare) and typ_text(t.ast.left).endswith(".typ") and len(t.ast.ops) == 1 and isinstance(t.ast.ops[0], ast.Eq) and norm(t.ast.comparators[0]) == "ADD" and t.loops:
             n_add += 1
-            chg = norm(t.ast.left).rsplit(".", 1)[0]
+            chg = typ_text(t.ast.left).rsplit(".", 1)[0]
 
             def no_old(a, lab, b, chg=chg):
                 if lab == "exc":
@@ -358,6 +368,10 @@ def _compare_rules(ck: Checker) -> None:
                 if a.kind != "test":
                     return False
                 x = norm(a.ast)
+                # `old_entry = change.old` copied into a local first
+                for nm_, ds_ in ((nm_, [d for d in _sc(cmp_).get(nm_) if d.kind in ("assign", "annassign")]) for nm_ in {y.id for y in walk_expr(a.ast) if isinstance(y, ast.Name)}):
+                    if len(ds_) == 1 and ds_[0].value is not None and norm(ds_[0].value) == f"{chg}.old":
+                        x = x.replace(nm_, f"{chg}.old")
                 return (x == f"{chg}.old is None" and lab == "T") or (x == f"{chg}.old is not None" and lab == "F") or (x == f"{chg}.old" and lab == "F") or (x == f"not {chg}.old" and lab == "T")
 
             head = t.loops[-1]
